@@ -104,6 +104,12 @@ pub fn judge(case: &Case, obs: &Obs) -> (Vec<Violation>, BTreeMap<String, u64>, 
     let relaxed = hard && hard_fired > 0;
     if relaxed {
         bump("relaxed_oracle_runs", 1);
+        // a failed write is reported: a run that returns Ok for everything after an EIO / ENOSPC has
+        // swallowed the error (an acknowledged response is then missing from the file)
+        let header_write_hit = obs.build_error.is_some();
+        if all_ok && !header_write_hit && obs.runs.len() == case.batches.len() {
+            v.push(Violation { class: "hard-fault-swallowed".into(), detail: format!("{} hard write fault(s) were injected but every run() returned Ok", hard_fired) });
+        }
     }
     match &out.format {
         OutFormat::Json => {
